@@ -493,9 +493,10 @@ class Model:
         return self.rootspec(fe, params, root, depth, is_init)
 
     @staticmethod
-    def none_params(ev, target):
+    def none_params(ev, target, known_none=frozenset()):
         """parameters of the callee that are None in this call (omitted with default None,
-        or passed the literal None) — used to prune `if p is not None:` in the callee"""
+        or passed the literal None, or passed a parameter of the caller that is itself None in the
+        specialisation being analysed — `known_none`) — used to prune `if p is not None:` in the callee"""
         a = target.node.args
         names = [x.arg for x in a.posonlyargs + a.args]
         defaults = [None] * (len(names) - len(a.defaults)) + list(a.defaults)
@@ -517,6 +518,8 @@ class Model:
             if n in supplied:
                 v = supplied[n]
                 if isinstance(v, ast.Constant) and v.value is None:
+                    out.add(n)
+                elif isinstance(v, ast.Name) and v.id in known_none:
                     out.add(n)
             elif isinstance(d, ast.Constant) and d.value is None:
                 out.add(n)
